@@ -1,0 +1,72 @@
+//go:build verif
+
+package persistence
+
+import "github.com/markusressel/fan2go/internal/fans"
+
+// Lemma functions for /verif/govc. They are compiled only with -tags verif, are never called, and are
+// verified against the contracts of the persistence functions (not their bodies): each turns the
+// "for all histories" part of the round-trip / isolation property into an inductive statement over
+// those contracts. See zz_contracts_verif.go for their pre- and postconditions.
+
+// lemmaOtherOp is one arbitrary operation on another fan's curve data or on any pwm map.
+func lemmaOtherOp(p persistence, b fans.Fan, id2 string, m map[int]int, op int) {
+	switch op {
+	case 0:
+		_ = p.SaveFanPwmData(b)
+	case 1:
+		_, _ = p.LoadFanPwmData(b)
+	case 2:
+		_ = p.DeleteFanPwmData(b)
+	case 3:
+		_ = p.SaveFanPwmMap(id2, m)
+	case 4:
+		_, _ = p.LoadFanPwmMap(id2)
+	case 5:
+		_ = p.DeleteFanPwmMap(id2)
+	}
+}
+
+// lemmaCurveHistory: save a's curve data, run any number of operations that do not target that entry,
+// load it again.
+func lemmaCurveHistory(p persistence, a fans.Fan, bs []fans.Fan, ids []string, ms []map[int]int, ops []int) (data map[int]float64, saveErr error, loadErr error) {
+	saveErr = p.SaveFanPwmData(a)
+	if saveErr != nil {
+		return nil, saveErr, nil
+	}
+	for i := 0; i < len(ops) && i < len(bs) && i < len(ids) && i < len(ms); i++ {
+		if bs[i] == nil || bs[i].GetId() == a.GetId() || bs[i].GetFanRpmCurveData() == nil {
+			continue
+		}
+		lemmaOtherOp(p, bs[i], ids[i], ms[i], ops[i])
+	}
+	data, loadErr = p.LoadFanPwmData(a)
+	return data, nil, loadErr
+}
+
+// lemmaMapHistory: the same for a pwm map stored under id.
+func lemmaMapHistory(p persistence, id string, pwmMap map[int]int, bs []fans.Fan, ids []string, ms []map[int]int, ops []int) (data map[int]int, saveErr error, loadErr error) {
+	saveErr = p.SaveFanPwmMap(id, pwmMap)
+	if saveErr != nil {
+		return nil, saveErr, nil
+	}
+	for i := 0; i < len(ops) && i < len(bs) && i < len(ids) && i < len(ms); i++ {
+		if bs[i] == nil || ids[i] == id || bs[i].GetFanRpmCurveData() == nil {
+			continue
+		}
+		lemmaOtherOp(p, bs[i], ids[i], ms[i], ops[i])
+	}
+	data, loadErr = p.LoadFanPwmMap(id)
+	return data, nil, loadErr
+}
+
+// lemmaDeleteTwice: deleting is idempotent and a load after a delete reports "not found".
+func lemmaDeleteTwice(p persistence, a fans.Fan) (err1 error, err2 error, loadErr error) {
+	err1 = p.DeleteFanPwmData(a)
+	if err1 != nil {
+		return err1, nil, nil
+	}
+	err2 = p.DeleteFanPwmData(a)
+	_, loadErr = p.LoadFanPwmData(a)
+	return nil, err2, loadErr
+}
